@@ -267,7 +267,17 @@ def check_event(ev, known_invalid=False, usage_refusal=False):
                                                             errs[:3])))
         return out
     # ---- a failing call
-    if errno == "0":
+    # The property queries report a null element as "no value" (-1 / NULL)
+    # without an error: the project's own test suite (test-vnaproperty-list,
+    # step 45) requires errno to stay 0 there, and vnaproperty(3) documents
+    # the same convention for get_subtree.  So errno 0 is accepted for them.
+    null_ok = ev.get("op", "") in (
+        "vnaproperty_type", "vnaproperty_count", "vnaproperty_keys",
+        "vnaproperty_get", "vnaproperty_get_subtree",
+        "vnacal_property_type", "vnacal_property_count",
+        "vnacal_property_keys", "vnacal_property_get",
+        "vnacal_property_get_subtree")
+    if errno == "0" and not null_ok:
         out.append(("errno-not-set", "returned %r with errno 0" % (ev["ret"],)))
     if spec.errfn == NEVER and errs:
         out.append(("silent-function-called-error-fn", "%r" % (errs[:3],)))
